@@ -121,11 +121,11 @@ func H_C19_damaged() {
 	if isXML {
 		x, _ := good.Xml()
 		first = string(x)
-		second = []string{"<b>", "<b></c>", "<b a=></b>", "</b>"}[vChoose(4)]
+		second = []string{"<b>", "<b></c>", "<b a=></b>", "</b>", "<b", "<?xml vers", "<b></c><d>later</d>"}[vChoose(7)]
 	} else {
 		j, _ := good.Json()
 		first = string(j)
-		second = []string{"{\"b\":", "{\"b\":x}", "{\"b\":1", "\"b\":2}{\"c\":3}", "}{\"c\":3}", " } {\"c\":3}"}[vChoose(6)]
+		second = []string{"{\"b\":", "{\"b\":x}", "{\"b\":1", "\"b\":2}{\"c\":3}", "}{\"c\":3}", " } {\"c\":3}", "{\"b\":x}{\"c\":3}", "{\"b\":}\n{\"c\":3}"}[vChoose(8)]
 	}
 	switch vChoose(4) {
 	case 0: // missing file
